@@ -7,9 +7,7 @@ NA = {
  "C03": "state machine over Mutex<HashMap<PaymentId,..>> driven by events, monitor replays and restarts; no bounded integer kernel carries truthfulness; out of reach for Kani (hash maps, secp256k1) and for the MIR encoder (DESIGN.md §5 C03)",
  "C09": "ordering constraint between ChannelManager and ChainMonitor event streams (locks, hash maps, background events); no function-level input/output relation to encode (DESIGN.md §5 C09)",
  "C10": "whole-program crash/restart property: deserialisation of manager+monitors followed by arbitrary later behaviour; not encodable within reach (DESIGN.md §5 C10)",
- "C15": "PeerChannelEncryptor interleaves ChaCha20-Poly1305 calls on Vec<u8> buffers with its nonce/rotation counters; with the AEAD abstracted only a two-line counter increment remains, which does not carry the property; handshake, tamper rejection and PeerManager framing are cryptographic or schedule-level (DESIGN.md §5 C15)",
  "C19": "filesystem calls, rename atomicity, threads and a real ChannelMonitor (secp256k1); no bounded kernel carries the property (DESIGN.md §5 C19)",
- "C20": "async fns over boxed dyn Future block sources, HashMap header cache, proof-of-work validation; not reachable by Kani or the MIR encoder (DESIGN.md §5 C20)",
 }
 
 # property -> (engine, technique, level text, level note)
@@ -59,6 +57,12 @@ claim("C13", "M+K", "Kani/CBMC bounded model checking of the compiled codecs; SM
 claim("C14", "K", K,
       "Kernel level (narrow): AttributionData layout - shift_right/shift_left inverse on the retained bytes, hold-time and HMAC slot movement - for fully symbolic 920-byte contents. Onion construction/peeling and all cryptography are outside the claim.",
       "trusted: Kani/CBMC")
+claim("C15", "M", "SMT bounded model checking of MIR (z3 + cvc5 portfolio)",
+      "Kernel level: (a) the nonce / key-rotation kernel of PeerChannelEncryptor - one message across encrypt_message_with_header_0s, decrypt_length_header and decrypt_message from an arbitrary coupled post-handshake state (an inductive step over any number of messages and key rotations): the message is accepted with its length and both sides stay in step, nonces are consecutive and never reused, keys rotate exactly at nonce 1000 on both sides, an altered header or body is rejected; AEAD and HKDF abstracted (keys as identities, decryption succeeds iff same key, nonce and unaltered bytes). (c) one iteration of the read loop of PeerManager::do_read_event from an arbitrary loop-head state: partial reads, completed length headers, bodies and handshake acts are reassembled for reads of any size, authentication failures and lengths below 2 drop the connection, the buffer invariant is preserved, no slice index can go out of range. (d) do_handle_message_holding_peer_lock / handle_message: nothing but Init is accepted before Init, a second Init is refused, a refused message is not handled. Replayed with two real encryptors (hook), with two real PeerManagers over in-memory sockets cut into fragments of ten sizes, and [d] through a raw initiator (hook). The handshake cryptography, write-side back-pressure and panics on arbitrary handshake bytes are outside the claim.",
+      "trusted: rustc MIR dump, engine_m, z3/cvc5; crypto abstraction and the stubs of the read loop listed in the evidence")
+claim("C20", "M", "SMT bounded model checking of MIR (z3 + cvc5 portfolio), async bodies executed through their poll functions",
+      "Function level over lightning-block-sync's MIR, block hashes as identities, chain work as integers, every awaited future immediately ready with an arbitrary answer: check_builds_on (a parent must be named by hash, be one lower and account for the chain work; mainnet difficulty rules); ChainPoller's three async blocks (a parent / tip / block is accepted from a source only if it hashes - proof of work - to exactly the hash asked for; Better only with strictly more work); find_difference_from_header (most recent common ancestor and the contiguous list of blocks to connect, both tips <= 2 (quick) / 3 (thorough) blocks above it, arbitrary tree); connect_blocks (oldest first, each once, stops at the first failed fetch and reports the tip reached; <= 3 / 5 blocks); synchronize_listener (disconnect to the ancestor before connecting, nothing touched if the walk fails); update_chain_tip / poll_best_tip (the client's tip is where the listeners are; only Better tips move them). Counterexamples are replayed on the real SpvClient over ~900 fork shapes x source behaviours with a native validator of the notification sequence. Start-up synchronisation (init::synchronize_listeners), the header cache's eviction, proof-of-work / merkle validation itself and the HTTP sources are outside the claim.",
+      "trusted: rustc MIR dump, engine_m (coroutine state values), z3/cvc5")
 claim("C18", "M+K", "Kani/CBMC bounded model checking of the BOLT-11 codecs; SMT bounded model checking of MIR (z3 + cvc5) for the BOLT-12 signing-key rule",
       "Kernel level (narrow): BOLT-11 integer <-> 5-bit group codec (mutually inverse, canonical, size function), amount x SI-prefix arithmetic never wraps, PositiveTimestamp bounds; for all u64 (Kani). BOLT-12 check_invoice_signing_pubkey: Ok iff the signing key is the offer's issuer id, or - without an issuer id - the final blinded node id of one of its paths; public keys as abstract identities, <= 2 paths of <= 2 hops (engine M). Bech32 checksum, signatures, tagged fields, merkle hashing and metadata verification are outside the claim.",
       "trusted: Kani/CBMC; rustc MIR dump, engine_m, z3/cvc5")
